@@ -74,6 +74,9 @@ def decorate(rng, doc):
             c["short"] = "container " + c["name"]
         if rng.random() < 0.2:
             c["long"] = "long container text"
+    if rng.random() < 0.5:
+        # any order of the container set: derived containers before their bases, nested containers after their users
+        rng.shuffle(d["containers"])
     return d
 
 
